@@ -102,6 +102,8 @@ def gen_cfg(rng, faults, thorough=False):
         "pcancellable": rng.choice([0.0, 0.5, 1.0]),
         "seed": rng.randrange(1 << 30),
     }
+    if faults:
+        cfg["exc"] = rng.choice(["eval", "eval", "timeout", "plain_timeout", "value", "key", "os"])
     cfg["double_cancel"] = bool(cfg["cancel_at"] is not None and rng.random() < 0.35)
     cfg["goal_api"] = rng.choice(["callable", "npoints", "loss"]) if kind in ("stub", "l1d", "l2d") else "callable"
     if kind == "l2d":   # (the goal of a Learner2D run usually looks at the loss; far enough for the corners to be done)
@@ -142,6 +144,7 @@ def goal_fn(cfg):
 
 def execute(cfg):
     c = dict(cfg)
+    rd.set_exc(cfg.get("exc"))
     c["goal"] = goal_fn(c)
     rng = random.Random(cfg["seed"])
     mk = mk_learner(cfg["kind"], cfg["param"])
@@ -322,7 +325,7 @@ def oracle_c06(res):
             e = err
             if e is None and hasattr(r, "task"):
                 e = r.task.exception()
-            if e is None or not isinstance(e.__cause__, rd.EvalError):
+            if e is None or not isinstance(e.__cause__, (rd.EvalError, TimeoutError)):
                 return ("raise_cause", f"error {e!r} does not carry the original exception")
             pts = [p for p in want if f'"learner.function({L.pts[p]})"' in str(e).split("See the traceback")[0]]
             if not pts:
